@@ -223,6 +223,8 @@ class C08(Harness):
                     want_op = "update" if (cell.get("strategy") == "update" and f_i > 0) else "fit"
                     P.check("same-splits-for-every-candidate", e["who"] == p and len(e["idx"]) == len(tr))
                     P.check("evaluation-strategy-honoured", e["op"] == want_op, {"fold": f_i, "op": e["op"], "strategy": cell.get("strategy", "refit")})
+                    if want_op == "update" and e["op"] == "update":  # the candidate is re-estimated on every later window (update's default)
+                        P.check("evaluation-strategy-honoured", e.get("update_params") is True, {"fold": f_i, "update_params": e.get("update_params")})
                     if kind == "replace":  # the replacement step (q = 7) carrying the candidate's nested value
                         P.check("row-equals-independent-evaluate", e["q"] == 7, {"candidate": j, "q_seen": e["q"]})
                     if kind == "listgrid":  # every candidate = the base forecaster plus exactly its own parameters
